@@ -40,7 +40,9 @@
    values.  Bound, ZeroDoppler and UnitPower are invariants over these exact values.            *)
 EXTENDS Integers, Sequences, FiniteSets, TLC, Emit, Limb
 
-CONSTANTS Kind,        \* "jakes" | "rayleigh"
+CONSTANTS Kind,        \* "jakes" | "rayleigh" | "funcfresh" (generate_jakes_samples WITHOUT phase arguments: the
+                       \* caller keeps the time, every call draws its own phases; no argument at all = 100 samples from t = 0)
+          FormSalt,    \* rotates the concrete form in which a shape is handed over (see FormOf)
           GenSizes,    \* request sizes n of Generate(n)
           SkipSizes,   \* sizes n of Skip(n)
           BigReps,     \* repetition counts r of SkipBig(r)
@@ -59,6 +61,8 @@ VARIABLES gens, draws, nbuf, len, ret
 vars == <<gens, draws, nbuf, len, ret>>
 
 Ray   == Kind = "rayleigh"
+Fresh == Kind = "funcfresh"
+NoMem == Ray \/ Fresh          \* every block comes from its own draw
 NoRet == [op |-> "none"]
 NG    == Len(gens)
 
@@ -104,6 +108,15 @@ Init == /\ gens = <<>>
         /\ len = 0
         /\ ret = NoRet
 
+\* The abstract shape <<3>> can be handed over as the Python int 3, the tuple (3,), a numpy integer scalar or a
+\* tuple of numpy integers; <<2,3>> as a tuple of Python or numpy integers; <<>> is None.  Whatever the form, the
+\* configured shape is the same tuple (law AnyIntTypeSameShape).  The form is rotated deterministically.
+Forms == <<"int", "tuple", "npint", "nptuple">>
+FormOf(s) == LET k == (FormSalt + draws + len) % 4 IN
+             IF s = <<>> THEN "none" ELSE IF Len(s) = 1 THEN Forms[k + 1] ELSE IF k >= 2 THEN "nptuple" ELSE "tuple"
+\* deviation: the shape setter recognises only isinstance(shape, int) as "an integer"
+ShapeRejected(s) == Dev.NumpyIntShapeRejected /\ FormOf(s) = "npint"
+
 \* a freshly constructed generator: the constructor draws the phases and generates sample 0
 NewGen(sh, d, dAsIs, w) ==
   [cur    |-> IF Ray THEN LZero ELSE <<w, 1>>,
@@ -115,14 +128,23 @@ NewGen(sh, d, dAsIs, w) ==
 \* has been running for a long time)
 Construct(sh, w) ==
   /\ gens = <<>>
+  /\ ~ShapeRejected(sh)
   /\ gens' = <<NewGen(sh, 1, 1, w)>>
   /\ draws' = 1
   /\ nbuf' = 1
   /\ len' = 0
   /\ ret' = [op |-> "Construct", g |-> 1, sh |-> sh, warm |-> IF Ray THEN 0 ELSE w, buf |-> 1,
+             form |-> FormOf(sh), rejected |-> FALSE,
              exp |-> Block(LZero, 1, 1, sh, ~Ray),
              tab |-> IF Lattice THEN DrawTable(1, sh) ELSE <<>>,
              vals |-> IF Lattice THEN PeriodTable(1, sh) ELSE <<>>, r0 |-> 0]
+
+\* the constructor raising on a valid shape (deviation only): no generator exists afterwards
+ConstructRejected(sh, w) ==
+  /\ gens = <<>>
+  /\ ShapeRejected(sh)
+  /\ ret' = [op |-> "Construct", g |-> 1, sh |-> sh, warm |-> 0, buf |-> 0, form |-> FormOf(sh), rejected |-> TRUE]
+  /\ UNCHANGED <<gens, draws, nbuf, len>>
 
 \* how many time points the code builds for a request of n samples: np.arange(start, start + n*Ts,
 \* Ts*(1+1e-10)) has ceil((stop - start)/step) points, and stop - start is rounded to the ulp of a
@@ -135,17 +157,20 @@ LongN == 1000
 Offs(G, n) == IF G.off THEN {TRUE}
               ELSE IF Dev.ArangeStepRounded /\ ~Ray /\ G.cur[1] >= 1 /\ n >= LongN THEN {FALSE, TRUE} ELSE {FALSE}
 
-GenStep(g, n, op, tdim) ==
+\* restart: generate_jakes_samples() with no argument at all starts at t = 0 whatever the caller's time
+GenStep(g, n, op, tdim, restart) ==
   /\ g \in 1..NG
   /\ len < MaxLen
   /\ \E cnt \in Counts(gens[g], n), off1 \in Offs(gens[g], n) :
        LET G      == gens[g]
-           redraw == Ray \/ Dev.GenRedrawsPhases
+           redraw == NoMem \/ Dev.GenRedrawsPhases
            ph1    == IF redraw THEN draws + 1 ELSE G.ph
-           phE    == IF Ray THEN draws + 1 ELSE G.phWant
-           blk0   == Block(G.cur, cnt, ph1, G.sh, tdim)
+           phE    == IF NoMem THEN draws + 1 ELSE G.phWant
+           from   == IF restart THEN LZero ELSE G.cur
+           fromE  == IF restart THEN LZero ELSE G.served
+           blk0   == Block(from, cnt, ph1, G.sh, tdim)
            blk    == IF off1 THEN OffGrid(blk0) ELSE blk0
-           expb   == Block(G.served, n, phE, G.sh, tdim)
+           expb   == Block(fromE, n, phE, G.sh, tdim)
            raised == cnt # n               \* the reshape to (.., n) raises, after the time was advanced
            adv    == IF Dev.PlusTsDropped THEN cnt - 1 ELSE cnt
            \* the array the samples are written to: a new one - or (deviation) the generator's output
@@ -153,8 +178,8 @@ GenStep(g, n, op, tdim) ==
            reuse  == Dev.ReusesBuffer /\ ~Ray /\ G.out.n = cnt /\ G.out.sh = G.sh /\ G.out.tdim = tdim
            wbuf   == IF raised THEN 0 ELSE IF reuse THEN G.buf ELSE nbuf + 1
        IN /\ gens' = [gens EXCEPT ![g] =
-                        [@ EXCEPT !.cur    = IF Ray THEN @ ELSE LAddSmall(@, adv),
-                                  !.served = IF Ray THEN @ ELSE LAddSmall(@, n),
+                        [@ EXCEPT !.cur    = IF Ray THEN @ ELSE LAddSmall(from, adv),
+                                  !.served = IF Ray THEN @ ELSE LAddSmall(fromE, n),
                                   !.ph     = ph1,
                                   !.phWant = phE,
                                   !.off    = off1,
@@ -167,8 +192,13 @@ GenStep(g, n, op, tdim) ==
                      r0 |-> LMod(expb.first, 4)]
   /\ len' = len + 1
 
-Generate(g, n) == GenStep(g, n, "Gen", TRUE)                       \* generate_more_samples(n)
-GenerateDefault(g) == GenDefault /\ GenStep(g, 1, "GenDefault", ~Ray)  \* generate_more_samples()
+Generate(g, n) == GenStep(g, n, "Gen", TRUE, FALSE)                \* generate_more_samples(n)
+\* generate_more_samples() = one sample; generate_jakes_samples(Fd) = NSamples 100, shape None, from t = 0
+GenerateDefault(g) ==
+  /\ GenDefault
+  /\ g \in 1..NG
+  /\ Fresh => gens[g].sh = <<>>
+  /\ GenStep(g, IF Fresh THEN 100 ELSE 1, "GenDefault", ~Ray, Fresh)
 
 \* skip_samples_for_next_generation(n)
 Skip(g, n) ==
@@ -197,15 +227,16 @@ SkipBig(g, r) ==
 SetShape(g, s) ==
   /\ g \in 1..NG
   /\ len < MaxLen
-  /\ LET d == IF Ray THEN draws ELSE draws + 1 IN
-       /\ gens' = [gens EXCEPT ![g] =
+  /\ LET d == IF NoMem \/ ShapeRejected(s) THEN draws ELSE draws + 1 IN
+       /\ gens' = IF ShapeRejected(s) THEN gens ELSE
+                   [gens EXCEPT ![g] =
                      [@ EXCEPT !.sh = s,
-                               !.ph = IF Ray THEN @ ELSE d,
-                               !.phWant = IF Ray THEN @ ELSE d,
+                               !.ph = IF NoMem THEN @ ELSE d,
+                               !.phWant = IF NoMem THEN @ ELSE d,
                                !.cur = IF Dev.ShapeRestartsTime /\ ~Ray THEN LZero ELSE @]]
        /\ draws' = d
        /\ UNCHANGED nbuf
-       /\ ret' = [op |-> "SetShape", g |-> g, sh |-> s, draw |-> d,
+       /\ ret' = [op |-> "SetShape", g |-> g, sh |-> s, draw |-> d, form |-> FormOf(s), rejected |-> ShapeRejected(s),
                   tab |-> IF Lattice /\ ~Ray THEN DrawTable(d, s) ELSE <<>>]
   /\ len' = len + 1
 
@@ -226,7 +257,7 @@ Similar(g) ==
   /\ len' = len + 1
 
 \* one named disjunct per public call (TLC reports coverage per name)
-DoConstruct  == \E s \in Shape0, w \in Warm : Construct(s, w)
+DoConstruct  == \E s \in Shape0, w \in Warm : Construct(s, w) \/ ConstructRejected(s, w)
 DoGenerate   == \E g \in 1..NG, n \in GenSizes : Generate(g, n)
 DoGenDefault == \E g \in 1..NG : GenerateDefault(g)
 DoSkip       == \E g \in 1..NG, n \in SkipSizes : Skip(g, n)
@@ -264,6 +295,9 @@ Count == ret.op \in GenOps =>
            /\ ret.asis.tdim = ret.exp.tdim
            /\ gens[ret.g].out = ret.asis
 
+\* every form of a valid shape is accepted and configures the same tuple
+ShapeAccepted == ret.op \in {"Construct", "SetShape"} => ~ret.rejected
+
 \* the machine's position is the number of samples asked for so far
 Aligned == \A g \in 1..NG : gens[g].cur = gens[g].served
 
@@ -276,9 +310,10 @@ OnGrid == /\ \A g \in 1..NG : ~gens[g].off /\ gens[g].out.ongrid
 \* at served + n; skips move by exactly n; nothing else moves a generator.
 ContigStep ==
   /\ ret'.op \in GenOps =>
-       /\ ret'.asis.first = gens[ret'.g].served
+       LET start == IF Fresh /\ ret'.op = "GenDefault" THEN LZero ELSE gens[ret'.g].served IN
+       /\ ret'.asis.first = start
        /\ ret'.asis.n = ret'.n
-       /\ gens'[ret'.g].cur = (IF Ray THEN LZero ELSE LAddSmall(gens[ret'.g].served, ret'.n))
+       /\ gens'[ret'.g].cur = (IF Ray THEN LZero ELSE LAddSmall(start, ret'.n))
   /\ ret'.op = "Skip" => gens'[ret'.g].cur = (IF Ray THEN LZero ELSE LAddSmall(gens[ret'.g].served, ret'.n))
   /\ ret'.op = "SkipBig" => gens'[ret'.g].cur = (IF Ray THEN LZero ELSE LAddBig(gens[ret'.g].served, ret'.r))
   /\ ret'.op \in {"SetShape", "Similar"} => gens'[ret'.g].cur = gens[ret'.g].served
@@ -316,8 +351,9 @@ BuffersDistinct == \A g, h \in 1..NG : g # h => gens[g].buf # gens[h].buf
 Frame == {"EarlierBlocksUnchanged", "OthersUnchanged", "ArgumentsUnchanged", "QueriesPure"}
 Laws(r) == IF r.op \in BlockOps
              THEN Frame \cup {"Count", "Contiguity", "OnGrid", "PhasesFixed", "Bound", "EveryRayCounts"}
+                        \cup (IF r.op = "Construct" THEN {"AnyIntTypeSameShape"} ELSE {})
                         \cup (IF (Lattice /\ FdQ = 0) THEN {"ZeroDoppler"} ELSE {})
-             ELSE Frame \cup {"StoredBlockKept"}
+             ELSE Frame \cup {"StoredBlockKept"} \cup (IF r.op = "SetShape" THEN {"AnyIntTypeSameShape"} ELSE {})
 
 \* exact values (lattice instance): |h|^2 = (re^2 + im^2) * Norm2 <= L for every draw, element, index
 AllVals == {ValM(d, e, r) : d \in 1..draws, e \in 0..1, r \in 0..3}
